@@ -534,8 +534,14 @@ def _idclass(chain, doc):
 def _wclass(chain, doc):
     flat = list(_flat(chain))
     # numbers reach a replace_string item from the document or from a condition added earlier in the chain
-    added_number = any(t["type"] == "add_condition" and _has_number({"detection": {"x": t.get("conditions", {})}}) and
-                       any(u["type"] == "replace_string" for u in flat[i + 1:]) for i, t in enumerate(flat))
+    def _brings_number(t):
+        if t["type"] == "add_condition":
+            return _has_number({"detection": {"x": t.get("conditions", {})}})
+        if t["type"] == "set_value":
+            return (isinstance(t.get("value"), (int, float)) and not isinstance(t.get("value"), bool)) or t.get("force_type") == "num"
+        return t["type"] == "convert_type" and t.get("target_type") == "num"
+
+    added_number = any(_brings_number(t) and any(u["type"] == "replace_string" for u in flat[i + 1:]) for i, t in enumerate(flat))
     if any(t["type"] == "replace_string" for t in flat) and (_has_number(doc) or added_number):
         return "replace_string:number-becomes-string"
     names = "+".join(sorted({t["type"] for t in flat}))
